@@ -345,3 +345,472 @@ def dict_key_exprs(f, dict_name: str) -> List[Tuple[ast.AST, ast.stmt]]:
             if st.func.attr == "setdefault" and st.args:
                 out.append((st.args[0], st))
     return out
+
+
+# ------------------------------------------------------------------------------------------------
+# single-definition aliases
+# ------------------------------------------------------------------------------------------------
+
+class AliasRoot:
+    """Result of alias_root: `expr` is the expression at the end of the alias chain (a Name when the chain ends at a
+    parameter, a free name, a name with several definitions or a name whose definition is not a plain alias; `value` is
+    then the expression assigned by `defstmt`, if any), `names` are the local names on the chain (incl. the root)."""
+
+    def __init__(self, expr, names, defstmt, value, copied):
+        self.expr, self.names, self.defstmt, self.value, self.copied = expr, names, defstmt, value, copied
+
+
+def alias_root(ctx, f, e: ast.AST, wrappers=("tuple", "list"), depth: int = 8) -> AliasRoot:
+    """Follow order-preserving re-packaging (`tuple(x)`, `list(x)`) and local names with exactly one reaching definition
+    `a = b` back to the name that carries the original value."""
+    rd = ctx.rd(f)
+    names: List[str] = []
+    copied = False
+    for _ in range(depth):
+        e2 = strip_wrappers(e, wrappers)
+        copied = copied or (e2 is not e)
+        e = e2
+        if not (isinstance(e, ast.Name) and isinstance(e.ctx, ast.Load)):
+            return AliasRoot(e, names, None, None, copied)
+        names.append(e.id)
+        defs = rd.defs_reaching(e)
+        if len(defs) != 1 or isinstance(defs[0], ast.arguments):
+            return AliasRoot(e, names, None, None, copied)
+        v = assigned_value(defs[0], e.id)
+        if v is None:
+            return AliasRoot(e, names, defs[0], None, copied)
+        v2 = strip_wrappers(v, wrappers)
+        if isinstance(v2, ast.Name):
+            copied = copied or (v2 is not v)
+            e = v2
+            continue
+        return AliasRoot(e, names, defs[0], v, copied)
+    return AliasRoot(e, names, None, None, copied)
+
+
+# ------------------------------------------------------------------------------------------------
+# abstract interpretation of list construction: which leading entries does a returned list have, under which flags?
+# ------------------------------------------------------------------------------------------------
+
+class Scalar:
+    """A non-list value.  `key` identifies the value (two reads of the same un-rebound variable have the same key);
+    `const` is the Python constant when the value is a literal."""
+    __slots__ = ("key", "const", "is_const")
+
+    def __init__(self, key, const=None, is_const=False):
+        self.key, self.const, self.is_const = key, const, is_const
+
+    def __repr__(self):
+        return repr(self.const) if self.is_const else f"⟨{self.key}⟩"
+
+
+class LVal:
+    """A list whose leading entries `elems` are known; `open` = an unknown tail follows; `bad` = modified in a way that is
+    not understood (nothing is known any more)."""
+    __slots__ = ("elems", "open", "bad")
+
+    def __init__(self, elems=None, open=False, bad=False):
+        self.elems, self.open, self.bad = list(elems or []), open, bad
+
+    def copy(self):
+        return LVal(self.elems, self.open, self.bad)
+
+    def __repr__(self):
+        return ("BAD" if self.bad else "") + "[" + ", ".join(map(repr, self.elems)) + (", …" if self.open else "") + "]"
+
+
+class Delegate:
+    """The value returned by the same-named method of a parent class (`super().m(...)`)."""
+
+    def __init__(self, call):
+        self.call = call
+
+    def __repr__(self):
+        return "super()"
+
+
+class _State:
+    __slots__ = ("store", "facts")
+
+    def __init__(self, store, facts):
+        self.store, self.facts = store, facts
+
+    def fork(self):
+        memo: Dict[int, LVal] = {}
+        store = {}
+        for k, v in self.store.items():
+            if isinstance(v, LVal):
+                if id(v) not in memo:
+                    memo[id(v)] = v.copy()
+                store[k] = memo[id(v)]
+            else:
+                store[k] = v
+        return _State(store, dict(self.facts))
+
+    def assume(self, facts) -> bool:
+        for k, b in facts:
+            if self.facts.get(k, b) != b:
+                return False
+            self.facts[k] = b
+        return True
+
+
+LIST_MUTATORS = {"append", "extend", "insert", "pop", "remove", "sort", "reverse", "clear"}
+
+
+def list_shapes(ctx, f, bindings: Optional[Dict[str, object]] = None, depth: int = 0, prefix: str = ""):
+    """Abstractly execute every bounded path of function `f` (loops unrolled, each CFG node at most twice) tracking only the
+    known leading entries of lists, aliases of scalars and the truth value of flags that were branched on.
+    Returns a list of (facts: {key: bool}, value, store) per distinct outcome at a `return`; value is an LVal, a Scalar, a
+    Delegate or None (function falls off its end / returns nothing)."""
+    cfg = ctx.cfg(f)
+    paths = bounded_paths(cfg, max_visits=2, limit=6000)
+    interp = _ListInterp(ctx, f, depth, prefix)
+    results = []
+    seen = set()
+    for path in paths:
+        if path[-1][0] is not cfg.EXIT:
+            continue
+        store = {}
+        for p in f.params:
+            store[p] = (bindings or {}).get(p, Scalar(prefix + p))
+        states = [_State(store, {})]
+        for k, (node, labels) in enumerate(path):
+            if k > 0:
+                prev = path[k - 1][0]
+                if isinstance(prev, (ast.If, ast.While)):
+                    oc = branch_outcome(labels)
+                    if oc is not None:
+                        states = [s for s in states if s.assume(interp.truth_facts(prev.test, oc, s))]
+            if isinstance(node, ast.Return):
+                for s in states:
+                    for s2, v in (interp.eval(node.value, s) if node.value is not None else [(s, None)]):
+                        sig = (tuple(sorted(s2.facts.items())), repr(v),
+                               tuple(sorted((k2, repr(v2)) for k2, v2 in s2.store.items() if isinstance(v2, Scalar))))
+                        if sig not in seen:
+                            seen.add(sig)
+                            results.append((dict(s2.facts), v, s2.store))
+                break
+            states = [s2 for s in states for s2 in interp.step(s, node)]
+            if not states:
+                break
+    return results
+
+
+class _ListInterp:
+    def __init__(self, ctx, f, depth, prefix):
+        self.ctx, self.f, self.depth, self.prefix = ctx, f, depth, prefix
+
+    # ---- keys / facts
+    def fresh(self, node, hint="") -> Scalar:
+        return Scalar(f"{self.prefix}{hint}@{getattr(node, 'lineno', 0)}:{getattr(node, 'col_offset', 0)}")
+
+    def truth_facts(self, test, outcome: bool, s: _State):
+        """[(key, bool)] implied by `test` evaluating to `outcome` (truthiness of names / attribute reads only)."""
+        if isinstance(test, ast.UnaryOp) and isinstance(test.op, ast.Not):
+            return self.truth_facts(test.operand, not outcome, s)
+        if isinstance(test, ast.Call) and isinstance(test.func, ast.Name) and test.func.id == "bool" and len(test.args) == 1:
+            return self.truth_facts(test.args[0], outcome, s)
+        if isinstance(test, ast.BoolOp):
+            if (isinstance(test.op, ast.And) and outcome) or (isinstance(test.op, ast.Or) and not outcome):
+                return [x for v in test.values for x in self.truth_facts(v, outcome, s)]
+            return []
+        if isinstance(test, ast.Constant):
+            return [] if bool(test.value) == outcome else [("⊥", True), ("⊥", False)]
+        if isinstance(test, ast.Name):
+            v = s.store.get(test.id)
+            if isinstance(v, Scalar):
+                if v.is_const:
+                    return [] if bool(v.const) == outcome else [("⊥", True), ("⊥", False)]
+                return [(v.key, outcome)]
+            if isinstance(v, LVal):
+                return []
+            return [(self.prefix + test.id, outcome)] if test.id not in s.store else []
+        if isinstance(test, ast.Attribute):
+            return [(ast.unparse(test), outcome)]
+        return []
+
+    # ---- expressions: list of (state, value)
+    def eval(self, e, s: _State):
+        if isinstance(e, ast.Constant):
+            return [(s, Scalar(repr(e.value), e.value, True))]
+        if isinstance(e, ast.Name):
+            if e.id in s.store:
+                v = s.store[e.id]
+                return [(s, v if v is not None else self.fresh(e, e.id))]
+            return [(s, Scalar(self.prefix + e.id))]
+        if isinstance(e, ast.Attribute):
+            return [(s, Scalar(ast.unparse(e)))]
+        if isinstance(e, (ast.List, ast.Tuple)):
+            outs = [(s, LVal())]
+            for i, el in enumerate(e.elts):
+                new = []
+                for s1, acc in outs:
+                    if acc.open or acc.bad:
+                        new.append((s1, acc))
+                        continue
+                    if isinstance(el, ast.Starred):
+                        for s2, v in self.eval(el.value, s1):
+                            a2 = acc.copy()
+                            if isinstance(v, LVal) and not v.bad:
+                                a2.elems += v.elems
+                                a2.open = v.open
+                            else:
+                                a2.open = True
+                            new.append((s2, a2))
+                    else:
+                        for s2, v in self.eval(el, s1):
+                            a2 = acc.copy()
+                            if isinstance(v, Scalar):
+                                a2.elems.append(v)
+                            else:
+                                a2.elems.append(self.fresh(el, "elem"))
+                            new.append((s2, a2))
+                outs = new
+            return outs
+        if isinstance(e, ast.BinOp) and isinstance(e.op, ast.Add):
+            outs = []
+            for s1, l in self.eval(e.left, s):
+                for s2, r in self.eval(e.right, s1):
+                    if isinstance(l, LVal):
+                        if l.open or l.bad:
+                            outs.append((s2, l.copy()))
+                        elif isinstance(r, LVal) and not r.bad:
+                            outs.append((s2, LVal(l.elems + r.elems, r.open)))
+                        else:
+                            outs.append((s2, LVal(l.elems, True)))
+                    elif isinstance(r, LVal):
+                        outs.append((s2, LVal([], True)))
+                    else:
+                        outs.append((s2, self.fresh(e, "sum")))
+            return outs
+        if isinstance(e, ast.IfExp):
+            outs = []
+            for oc, branch in ((True, e.body), (False, e.orelse)):
+                s1 = s.fork()
+                if s1.assume(self.truth_facts(e.test, oc, s1)):
+                    outs += self.eval(branch, s1)
+            return outs
+        if isinstance(e, ast.BoolOp) and isinstance(e.op, ast.Or):
+            outs = []
+            for v in e.values:
+                outs += self.eval(v, s.fork())
+            return outs
+        if isinstance(e, (ast.ListComp, ast.GeneratorExp)):
+            return [(s, LVal([], True))]
+        if isinstance(e, ast.Subscript):
+            if isinstance(e.slice, ast.Slice) and e.slice.lower is None and e.slice.upper is None and e.slice.step is None:
+                return [(s1, v.copy() if isinstance(v, LVal) else self.fresh(e, "slice")) for s1, v in self.eval(e.value, s)]
+            return [(s, self.fresh(e, "item"))]
+        if isinstance(e, ast.Call):
+            return self.eval_call(e, s)
+        if isinstance(e, ast.NamedExpr):
+            outs = []
+            for s1, v in self.eval(e.value, s):
+                if isinstance(e.target, ast.Name):
+                    s1.store[e.target.id] = v
+                outs.append((s1, v))
+            return outs
+        return [(s, self.fresh(e, "expr"))]
+
+    def eval_call(self, e: ast.Call, s: _State):
+        fn = e.func
+        # order-preserving copies
+        if isinstance(fn, ast.Name) and fn.id in ("list", "tuple", "copy", "deepcopy") and len(e.args) == 1 and not e.keywords:
+            return [(s1, v.copy() if isinstance(v, LVal) else (LVal([], True) if fn.id in ("list", "tuple") else v))
+                    for s1, v in self.eval(e.args[0], s)]
+        if isinstance(fn, ast.Attribute) and fn.attr == "copy" and not e.args:
+            return [(s1, v.copy() if isinstance(v, LVal) else self.fresh(e, "copy")) for s1, v in self.eval(fn.value, s)]
+        # super().same_method(...)
+        if isinstance(fn, ast.Attribute) and isinstance(fn.value, ast.Call) and isinstance(fn.value.func, ast.Name) \
+                and fn.value.func.id == "super" and fn.attr == self.f.node.name:
+            return [(s, Delegate(e))]
+        # private helper of the repository: analyse the callee with the arguments bound
+        if self.depth < 2:
+            try:
+                targets, how = self.ctx.cg.resolve_call(self.f, e)
+            except Exception:
+                targets, how = [], "unresolved"
+            if len(targets) == 1 and how not in ("by-name", "constructor", "external") and targets[0] is not self.f:
+                g = targets[0]
+                outs = []
+                bound_all = self._bind(g, e, s)
+                if bound_all is not None:
+                    memo = self.ctx.__dict__.setdefault("_c01_list_shape_memo", {})
+                    for s1, bindings in bound_all:
+                        mkey = (g.qual, self.depth, tuple(sorted((k, repr(v)) for k, v in bindings.items())))
+                        if mkey not in memo:
+                            try:
+                                memo[mkey] = list_shapes(self.ctx, g, bindings, self.depth + 1, prefix=f"{g.qualname}:")
+                            except AnalysisError:
+                                memo[mkey] = None
+                        sub = memo[mkey]
+                        if not sub:
+                            outs.append((s1, self.fresh(e, "call")))
+                            continue
+                        own = f"{g.qualname}:"
+                        for facts, v, _store in sub:
+                            s2 = s1.fork()
+                            if not s2.assume([(k, b) for k, b in facts.items() if not k.startswith(own)]):
+                                continue
+                            if isinstance(v, LVal):
+                                v = v.copy()
+                            elif not isinstance(v, Scalar):
+                                v = self.fresh(e, "call")
+                            outs.append((s2, v))
+                    if outs:
+                        return outs
+        return [(s, self.fresh(e, "call"))]
+
+    def _bind(self, g, call: ast.Call, s: _State):
+        """[(state, {param: value})] for the arguments of `call` bound to g's parameters; None when that is not possible."""
+        a = g.node.args
+        if a.vararg or a.kwarg or any(isinstance(x, ast.Starred) for x in call.args) or any(k.arg is None for k in call.keywords):
+            return None
+        params = [x.arg for x in a.posonlyargs + a.args]
+        if g.cls is not None and not g.is_static and isinstance(call.func, ast.Attribute) and params:
+            params = params[1:]
+        exprs: Dict[str, ast.AST] = {}
+        for p, x in zip(params, call.args):
+            exprs[p] = x
+        if len(call.args) > len(params):
+            return None
+        for k in call.keywords:
+            exprs[k.arg] = k.value
+        outs = [(s, {})]
+        for p, x in exprs.items():
+            new = []
+            for s1, b in outs:
+                for s2, v in self.eval(x, s1):
+                    b2 = dict(b)
+                    b2[p] = v
+                    new.append((s2, b2))
+            outs = new
+            if len(outs) > 16:
+                return None
+        return outs
+
+    # ---- statements: list of successor states
+    def step(self, s: _State, node):
+        if isinstance(node, ast.Assign):
+            outs = []
+            for s1, v in self.eval(node.value, s):
+                for t in node.targets:
+                    self.bind(s1, t, v, node.value, node)
+                outs.append(s1)
+            return outs
+        if isinstance(node, ast.AnnAssign):
+            if node.value is None:
+                return [s]
+            outs = []
+            for s1, v in self.eval(node.value, s):
+                self.bind(s1, node.target, v, node.value, node)
+                outs.append(s1)
+            return outs
+        if isinstance(node, ast.AugAssign):
+            if isinstance(node.target, ast.Name):
+                cur = s.store.get(node.target.id)
+                if isinstance(cur, LVal) and isinstance(node.op, ast.Add):
+                    outs = []
+                    for s1, v in self.eval(node.value, s):
+                        c = s1.store.get(node.target.id)
+                        self.extend(c, v)
+                        outs.append(s1)
+                    return outs
+                s.store[node.target.id] = self.fresh(node, node.target.id)
+            elif isinstance(node.target, ast.Subscript):
+                self.taint(s, node.target.value)
+            return [s]
+        if isinstance(node, ast.Expr) and isinstance(node.value, ast.Call):
+            c = node.value
+            if isinstance(c.func, ast.Attribute) and isinstance(c.func.value, ast.Name) and c.func.attr in LIST_MUTATORS:
+                recv = s.store.get(c.func.value.id)
+                if isinstance(recv, LVal):
+                    if c.func.attr == "append" and len(c.args) == 1:
+                        outs = []
+                        for s1, v in self.eval(c.args[0], s):
+                            r = s1.store[c.func.value.id]
+                            if not r.open:
+                                r.elems.append(v if isinstance(v, Scalar) else self.fresh(c, "elem"))
+                            outs.append(s1)
+                        return outs
+                    if c.func.attr == "extend" and len(c.args) == 1:
+                        outs = []
+                        for s1, v in self.eval(c.args[0], s):
+                            self.extend(s1.store[c.func.value.id], v)
+                            outs.append(s1)
+                        return outs
+                    if c.func.attr == "insert" and len(c.args) == 2 and isinstance(c.args[0], ast.Constant) \
+                            and isinstance(c.args[0].value, int) and 0 <= c.args[0].value <= len(recv.elems):
+                        outs = []
+                        for s1, v in self.eval(c.args[1], s):
+                            r = s1.store[c.func.value.id]
+                            r.elems.insert(c.args[0].value, v if isinstance(v, Scalar) else self.fresh(c, "elem"))
+                            outs.append(s1)
+                        return outs
+                    recv.bad = True
+            return [s]
+        if isinstance(node, (ast.For, ast.AsyncFor)):
+            for nm in target_names(node.target):
+                s.store[nm] = self.fresh(node, nm)
+            return [s]
+        if isinstance(node, (ast.With, ast.AsyncWith)):
+            for it in node.items:
+                if it.optional_vars is not None:
+                    for nm in target_names(it.optional_vars):
+                        s.store[nm] = self.fresh(node, nm)
+            return [s]
+        if isinstance(node, ast.ExceptHandler):
+            if node.name:
+                s.store[node.name] = self.fresh(node, node.name)
+            return [s]
+        if isinstance(node, ast.Delete):
+            for t in node.targets:
+                if isinstance(t, ast.Name):
+                    s.store.pop(t.id, None)
+                elif isinstance(t, ast.Subscript):
+                    self.taint(s, t.value)
+            return [s]
+        if isinstance(node, (ast.FunctionDef, ast.AsyncFunctionDef, ast.ClassDef)):
+            s.store[node.name] = self.fresh(node, node.name)
+            return [s]
+        return [s]
+
+    def extend(self, recv, v):
+        if not isinstance(recv, LVal) or recv.open:
+            return
+        if isinstance(v, LVal) and not v.bad:
+            recv.elems += v.elems
+            recv.open = v.open
+        else:
+            recv.open = True
+
+    def taint(self, s: _State, e):
+        if isinstance(e, ast.Name) and isinstance(s.store.get(e.id), LVal):
+            s.store[e.id].bad = True
+
+    def bind(self, s: _State, target, v, value_expr, node):
+        if isinstance(target, ast.Name):
+            if isinstance(v, LVal):
+                # `a = b` shares the list object, anything else creates a new one
+                s.store[target.id] = v if isinstance(value_expr, ast.Name) else v.copy()
+            elif isinstance(v, Scalar):
+                s.store[target.id] = v if isinstance(value_expr, (ast.Name, ast.Constant, ast.Attribute, ast.IfExp, ast.BoolOp)) \
+                    else self.fresh(node, target.id)
+            else:
+                s.store[target.id] = v if isinstance(v, Delegate) else self.fresh(node, target.id)
+        elif isinstance(target, (ast.Tuple, ast.List)):
+            if isinstance(value_expr, (ast.Tuple, ast.List)) and len(value_expr.elts) == len(target.elts) \
+                    and not any(isinstance(x, ast.Starred) for x in list(value_expr.elts) + list(target.elts)):
+                vals = [self.eval(x, s) for x in value_expr.elts]
+                for t, alts in zip(target.elts, vals):
+                    if len(alts) == 1:
+                        self.bind(s, t, alts[0][1], None, node)
+                    else:
+                        for nm in target_names(t):
+                            s.store[nm] = self.fresh(node, nm)
+            else:
+                for nm in target_names(target):
+                    s.store[nm] = self.fresh(node, nm)
+        elif isinstance(target, ast.Subscript):
+            self.taint(s, target.value)
